@@ -90,3 +90,20 @@ func VerifC16(entry string, n int) {
 	}
 	vfy.Cover("returned")
 }
+
+// VerifC16Huge: see the avc package; HEVC SPS / PPS / slice segment header generators.
+func VerifC16Huge(hm int, fn string, a, b, c, d, e, f, g, h int) {
+	c15Huge, c15HugeBools = hm%100, hm/100
+	switch fn {
+	case "VerifC15HSPS":
+		VerifC15HSPS(a, b, c)
+	case "VerifC15HSlice":
+		VerifC15HSlice(a, b, c, d, e, f)
+	case "VerifC15HSlicePB":
+		VerifC15HSlicePB(a, b, c, d, e, f, g, h)
+	default:
+		panic("harness: unknown generator " + fn)
+	}
+	c15Huge, c15HugeBools = 0, 0
+	vfy.Cover("returned")
+}
